@@ -1,6 +1,137 @@
 import FormulaicVerif.Model.Parser
-/-! # C01 — Formula strings denote exactly the documented Wilkinson term algebra (work in progress) -/
+import FormulaicVerif.Spec.Wilkinson
+import FormulaicVerif.Proofs.ShuntComplete
+import FormulaicVerif.Proofs.C01
+/-! # C01 — Formula strings denote exactly the documented Wilkinson term algebra
+
+Property theorems only (helpers: `Proofs/ShuntComplete.lean`, `Proofs/C01.lean`). They are about
+the very definitions the correspondence engine `c01` runs (`Model/{Tokenize,TokenOps,Shunt,Eval,Parser}.lean`).
+
+What is proved, for ALL inputs: the live operator table is the documented one (all 8 flag subsets);
+the shunting-yard returns the documented tree for every expression of the arithmetic grammar
+(unbounded nesting); sign-run collapsing keeps every other operator character in place and reduces
+each run by parity; the documented spelling identities hold on ordered term sets; the final ordering
+is a stable sort by interaction degree.
+
+FULL (unproved): `parse_eq_denote : WF f → Model.parseTerms cfg env (render f) = Spec.denoteFormula cfg f`
+for the whole grammar including `~`, `|`, intercept insertion and `.`. What is missing: the token-level
+intercept-insertion lemma and the evaluation-equals-denotation induction for structured values; these
+clauses are covered by the correspondence stream plus the independent reference evaluator of the
+documented semantics in `harness/parser_common.py` (`denote`), not by a theorem. -/
 namespace FormulaicVerif.Props.C01
-open FormulaicVerif.Model
+open FormulaicVerif FormulaicVerif.Model FormulaicVerif.Proofs.ShuntC
+
+/-- C01.1  The operator table built by the live `DefaultOperatorResolver` (regenerated from the
+source on every run) is the documented one — symbols, arities, precedences, associativities,
+fixities, context rules and disabled flags — for each of the 8 feature-flag subsets. -/
+theorem table_is_documented (twosided multipart multistage : Bool) :
+    Gen.defaultTable twosided multipart multistage
+      = Spec.Wilkinson.documentedTable twosided multipart multistage := by
+  cases twosided <;> cases multipart <;> cases multistage <;> rfl
+
+/-- C01.3  Completeness of the index-based shunting-yard: every expression `e` of the arithmetic
+grammar that is well formed with respect to the operator table (`WF`: each operator token resolves
+to its candidate list, the left operand's pending operators bind at least as tightly, the right
+operand's do not yield to it; `Guard`: nothing on the stack is popped) is parsed to exactly its
+documented tree `strip e` — any nesting depth, any number of operators, prefix signs included. -/
+theorem shunt_complete (tab : OpTable) (e : E) (hwf : WF tab e) (hg : Guard none e) :
+    tokensToAst tab (lin e) = .ok (some (strip e)) :=
+  parse_lin tab e hwf hg
+
+private def tA : Tok := { text := ['a'], kind := some .name }
+private def tB : Tok := { text := ['b'], kind := some .name }
+private def tC : Tok := { text := ['c'], kind := some .name }
+private def plusB : OpSpec := Spec.Wilkinson.bin "+" 100 .left
+private def plusU : OpSpec := Spec.Wilkinson.pre "+" 100
+private def minusU : OpSpec := Spec.Wilkinson.pre "-" 100
+private def minusB : OpSpec := Spec.Wilkinson.bin "-" 100 .left
+private def colonB : OpSpec := Spec.Wilkinson.bin ":" 300 .left
+
+/-- non-vacuity: `a + b : c` and `- a` satisfy the hypotheses for the documented default table, so
+the theorem yields `a + (b : c)` and `-a` (a concrete instance; the theorem itself is unbounded) -/
+example : tokensToAst (Spec.Wilkinson.documentedTable true true false)
+      (lin (.bin plusB ['+'] [plusB, plusU] (.atom tA) (.bin colonB [':'] [colonB] (.atom tB) (.atom tC))))
+    = .ok (some (.node plusB [.leaf tA, .node colonB [.leaf tB, .leaf tC]])) := by
+  apply shunt_complete
+  · refine ⟨rfl, ⟨_, rfl⟩, rfl, ⟨rfl, rfl⟩, ⟨by decide, by decide⟩, ?_, trivial, ?_⟩
+    · exact ⟨rfl, ⟨_, rfl⟩, rfl, ⟨rfl, rfl⟩, ⟨by decide, by decide⟩, ⟨by decide, by decide⟩, trivial, trivial⟩
+    · exact ⟨trivial, by intro o ho; cases ho; decide⟩
+  · exact ⟨trivial, by intro o ho; cases ho⟩
+
+example : tokensToAst (Spec.Wilkinson.documentedTable true true false)
+      (lin (.pre minusU ['-'] [minusB, minusU] (.atom tA)))
+    = .ok (some (.node minusU [.leaf tA])) := by
+  apply shunt_complete
+  · exact ⟨rfl, rfl, rfl, ⟨rfl, rfl⟩, ⟨by decide, by decide⟩, trivial⟩
+  · refine ⟨[minusB], [], rfl, ?_, ?_, ?_⟩
+    · intro c hc; simp at hc; subst hc; exact ⟨rfl, by decide, rfl, rfl⟩
+    · intro c _ o ho; cases ho
+    · intro o ho; cases ho
+
+/-- C01.2a  Collapsing runs of signs never drops, adds or reorders any other operator character
+(the two halves of the operator-precedence slip that used to turn `a:--b` into `a + b`). -/
+theorem collapse_keeps_other_chars (s : List Char) :
+    (collapseSigns s).filter Proofs.C01.notSign = s.filter Proofs.C01.notSign :=
+  Proofs.C01.collapse_keeps_other_chars s
+
+/-- C01.2b  A character that is not a sign stays where it is and splits the operator token into
+independently collapsed pieces. -/
+theorem collapse_split (a : List Char) (c : Char) (b : List Char) (hc : (c == '+' || c == '-') = false) :
+    collapseSigns (a ++ c :: b) = collapseSigns a ++ c :: collapseSigns b :=
+  Proofs.C01.collapse_split a c b hc
+
+/-- C01.2c  A run of two or more signs (any length) becomes ONE sign: `-` iff it contains an odd
+number of `-`; a single sign is left alone. -/
+theorem collapse_run (r : List Char) (h : ∀ c ∈ r, (c == '+' || c == '-') = true) (hl : 2 ≤ r.length) :
+    collapseSigns r = if (r.filter (· == '-')).length % 2 = 1 then ['-'] else ['+'] :=
+  Proofs.C01.collapse_run r h hl
+
+theorem collapse_single (c : Char) : collapseSigns [c] = [c] := Proofs.C01.collapse_single c
+
+example : collapseSigns "~-+--".toList = "~-".toList ∧ collapseSigns ":--".toList = ":+".toList := by decide
+
+/-- C01.8a  `a * b = a + b + a:b` on ordered term sets (same terms, same order), for all operands. -/
+theorem denote_mul (a b : List Term) :
+    osetUnion (oset (a ++ b)) (osetProd a b) = osetUnion (osetUnion a b) (osetProd a b) := rfl
+
+/-- C01.8a'  the same, stated on the operator implementations the evaluator dispatches to -/
+theorem denote_mul_ops (dot : DotCtx) (o p m : OpSpec) (a b : List Term)
+    (ho : o.symbol = "*" ∧ o.fixity = .infix) (hp : p.symbol = "+" ∧ p.fixity = .infix)
+    (hm : m.symbol = ":" ∧ m.fixity = .infix) :
+    applyPlain o dot [a, b] =
+      (do let s ← applyPlain p dot [a, b]; let i ← applyPlain m dot [a, b]; applyPlain p dot [s, i]) := by
+  obtain ⟨h1, h2⟩ := ho; obtain ⟨h3, h4⟩ := hp; obtain ⟨h5, h6⟩ := hm
+  simp [applyPlain, h1, h2, h3, h4, h5, h6, osetUnion, bind, Except.bind]
+
+/-- C01.8b  `b %in% a = a / b`, for all operands. -/
+theorem denote_in_eq_div (dot : DotCtx) (o d : OpSpec) (a b : List Term)
+    (ho : o.symbol = "in" ∧ o.fixity = .infix) (hd : d.symbol = "/" ∧ d.fixity = .infix) :
+    applyPlain o dot [b, a] = applyPlain d dot [a, b] := by
+  obtain ⟨h1, h2⟩ := ho; obtain ⟨h3, h4⟩ := hd
+  simp [applyPlain, h1, h2, h3, h4]
+
+/-- C01.8c  `^` is `**`, for all operands. -/
+theorem denote_caret_eq_pow (dot : DotCtx) (o d : OpSpec) (a b : List Term)
+    (ho : o.symbol = "^" ∧ o.fixity = .infix) (hd : d.symbol = "**" ∧ d.fixity = .infix) :
+    applyPlain o dot [a, b] = applyPlain d dot [a, b] := by
+  obtain ⟨h1, h2⟩ := ho; obtain ⟨h3, h4⟩ := hd
+  simp [applyPlain, h1, h2, h3, h4]
+
+/-- C01.8d  `a / b = a + a:b` for a single-term parent `a` and any `b`. -/
+theorem denote_div_single (t : Term) (b : List Term) :
+    nestedProduct [t] b = .ok (osetUnion [t] (osetProd [t] b)) := by
+  simp [nestedProduct, reduceMulTerms, osetProd]
+
+/-- C01.8e  `S ** 2` is the set of pairwise products of `S` in `itertools.product` order
+(`(a+b+c)**2 = a + a:b + a:c + b + b:c + c`, i.e. all interactions up to order 2), for any `S`. -/
+theorem denote_pow_two (s : List Term) : powTerms s 2 = osetProd s s := rfl
+
+/-- C01.9  Final ordering: `Formula` orders each part by interaction degree with a STABLE sort —
+the result is sorted by degree, is a permutation of the parsed terms, and terms of equal degree
+keep their first-appearance order. For every term list. -/
+theorem degree_order (ts : List Term) :
+    (sortByDegree ts).Pairwise (fun a b => a.degree ≤ b.degree) ∧ (sortByDegree ts).Perm ts ∧
+    ∀ d, (sortByDegree ts).filter (fun x => x.degree == d) = ts.filter (fun x => x.degree == d) :=
+  Proofs.C01.sortByDegree_spec ts
 
 end FormulaicVerif.Props.C01
